@@ -459,6 +459,11 @@ theorem float_spansIn (A : Span) (parseF : String → Option Nat) (inj : Nat →
       split
       · exact errsIn_ok A _
       · exact errsIn_err (leaf_allWithin _ _ hl)
+    case int d sfx =>
+      simp only []
+      split
+      · exact errsIn_ok A _
+      · exact errsIn_err (leaf_allWithin _ _ hl)
     all_goals exact errsIn_err (unexpectedLitType_allWithin l hl)
   · subst hf; exact hs
 
